@@ -23,16 +23,17 @@ from sx import Sym      # noqa: E402
 
 PROP = "C15"
 PROP_FILE = "C15_Batched"
-THEOREMS = ["c15_monotone_weak", "c15_monotone", "c15_insufficient", "c15_insufficient_uses_budget", "c15_agree_partial",
-            "c15_extra_duplicate_refuted"]
+THEOREMS = ["c15_insufficient", "c15_insufficient_uses_budget", "c15_calls_le_budget", "c15_returned_again_ignored",
+            "c15_monotone", "c15_progress", "c15_loader_of_ok", "c15_loader_all_ok", "c15_agree_partial",
+            "c15_progress_chain"]
 
 MANIFEST = {
-    "text": "Loader loop of is_authorized_batched modelled with the partial evaluator abstract (Section variables; hypotheses listed in notes/C15.md): only non-decision outcome is InsufficientIterations (exact loader), decisions are monotone in the budget, budget > |uids| decides, a decision equals the concrete one given residual soundness; a loader that returns an already-loaded entity makes the loop fail with Duplicate (refutation witness). Implementation-level oracle on PolicySet::is_authorized_batched vs Authorizer::is_authorized for every budget and 5 loader variants; correspondence of the model loop driven by observed per-iteration facts.",
-    "technique": "proof (Coq, induction over the budget with a loaded-set invariant) + differential/metamorphic oracle + trace correspondence",
+    "text": "Loader loop of is_authorized_batched (as of 6dde98e: entities returned again are skipped) modelled with the partial evaluator abstract (Section variables; hypotheses listed in notes/C15.md): only non-decision outcome is InsufficientIterations and only after exactly n loader calls, decisions are monotone in the budget, budget > |uids of the universe| decides (c15_progress, loader hypotheses proved for loader_of/loader_all, all interp hypotheses proved for the pointer-chain instance), a decision equals the concrete one given residual soundness (C14). Implementation-level oracle on PolicySet::is_authorized_batched vs Authorizer::is_authorized for every budget and 6 loader variants; chain policies are modelled WITHOUT facts from the implementation (outcome and requested ids per iteration predicted by the model), other policies by a fact-table driven model loop.",
+    "technique": "proof (Coq, induction over the budget with a loaded-set invariant and the measure |universe| - |loaded|) + differential/metamorphic oracle + trace correspondence",
     "note": "TPE itself is not modelled here (C14); its needed properties are Section hypotheses.",
 }
 
-VARIANTS = ["exact", "extra_fresh", "ancestors_fresh", "extra_any", "ancestors_any"]
+VARIANTS = ["exact", "extra_fresh", "ancestors_fresh", "extra_any", "ancestors_any", "all_any"]
 DUP_KEY = "C15-loader-returns-already-loaded-entity-duplicate-error"
 
 NODE_SCHEMA = {"": {
@@ -115,6 +116,42 @@ def node_case(rng):
             "store_schema": True, "stream": "node"}
 
 
+def chain_case(rng):
+    """stream C: only chain policies over the Node schema; modelled WITHOUT facts from the implementation
+       (coq/model/Batched.v c_batched_full): the model gets the store and the policies"""
+    N = 7
+    pp = rng.choice([0.8, 0.95, 1.0])
+    present = [i for i in range(N) if rng.random() < pp]
+    ents, ments = [], []
+    for i in present:
+        flag = rng.random() < 0.6
+        attrs = {"flag": flag, "peers": [{"__entity": nuid(rng.randrange(N + 1))} for _ in range(rng.choice([0, 0, 1, 2]))]}
+        nxt = None
+        if rng.random() < 0.9:
+            nxt = (i + 1) % N if rng.random() < 0.85 else rng.randrange(N + 1)
+            attrs["next"] = {"__entity": nuid(nxt)}
+        parents = [nuid(j) for j in range(i + 1, N) if rng.random() < 0.2]
+        ents.append({"uid": nuid(i), "attrs": attrs, "parents": parents, "tags": {}})
+        ments.append([i, Sym("true" if flag else "false"), nxt if nxt is not None else Sym("none")])
+    p, r, t = rng.randrange(N + 1), rng.randrange(N + 1), rng.randrange(N + 1)
+    request = {"principal": nuid(p), "action": {"type": "Action", "id": "act"}, "resource": nuid(r),
+               "context": {"target": {"__entity": nuid(t)}}}
+    pols, mpols = [], []
+    for i in range(rng.randint(1, 4)):
+        eff = rng.choice(["permit", "permit", "forbid"])
+        if rng.random() < 0.08:
+            pols.append({"id": "p%d" % i, "text": "%s(principal, action, resource);" % eff})
+            mpols.append([Sym(eff), [Sym("done"), Sym("true")]])
+            continue
+        lit = rng.randrange(N + 1)
+        base, head = rng.choice([("principal", p), ("resource", r), ("context.target", t), ('Node::"n%d"' % lit, lit)])
+        d = rng.choice([0, 1, 1, 2, 2, 3, 3, 4, 5, 5])
+        pols.append({"id": "p%d" % i, "text": "%s(principal, action, resource) when { %s };" % (eff, chain_expr(base, d))})
+        mpols.append([Sym(eff), [Sym("chain"), head, d]])
+    return {"schema": NODE_SCHEMA, "policies": pols, "templates": [], "request": request, "entities": ents,
+            "store_schema": True, "stream": "chain", "mpols": mpols, "ments": ments}
+
+
 def tgen_case(rng, sg):
     rs = sg.rs
     envs = tgen.request_envs(rs)
@@ -144,7 +181,7 @@ def oc(o):
     if "insufficient" in o:
         return ("insufficient",)
     if o.get("err") == "entities" and "duplicate" in o.get("msg", "").lower():
-        return ("err_duplicate",)
+        return ("err_duplicate",)    # unreachable since /repo 6dde98e (finding F-1); still recognised
     return ("err", o.get("err"))
 
 
@@ -156,6 +193,8 @@ def model_cmds(rr):
     if oc(big["outcome"])[0] == "err_duplicate" or oc(big["outcome"])[0] == "err":
         # take the longest run that did not fail to learn the facts; the failing call is learnt from the failing run
         pass
+    if any(oc(r["outcome"])[0] not in ("ok", "insufficient") for r in rr["runs"]):
+        return None
     calls = big["calls"]
     k = len(calls)
     ids = {}
@@ -205,12 +244,27 @@ def canon_model(s, b):
         return ("bad", repr(s)), []
 
 
+class Capped:
+    """at most CAP replays per kind of correspondence difference (one cause usually shows up thousands of times)"""
+    CAP = 25
+
+    def __init__(self, rep):
+        self.rep, self.n = rep, {}
+
+    def violation(self, payload, **kw):
+        k = payload["kind"][:60]
+        self.n[k] = self.n.get(k, 0) + 1
+        if self.n[k] <= self.CAP:
+            self.rep.violation(payload, **kw)
+
+
 def run(rep, tier, seed):
+    capped = Capped(rep)
     ob, dis, details, failures = fw.check_props(PROP_FILE, THEOREMS, tier)
     harness = fw.build_harness()
     driver = fw.build_model_driver()
     rng = random.Random(seed)
-    n_tgen, n_node = (500, 1500) if tier == "quick" else (6000, 20000)
+    n_tgen, n_node, n_chain = (500, 1200, 800) if tier == "quick" else (6000, 16000, 12000)
     cases = []
     sg = None
     for i in range(n_tgen):
@@ -224,7 +278,11 @@ def run(rep, tier, seed):
     for _ in range(n_node):
         cases.append(node_case(rng))
     for c in cases:
-        c["variant"] = rng.choice(VARIANTS[:3]) if rng.random() < 0.85 else rng.choice(VARIANTS[3:])
+        c["variant"] = rng.choice(VARIANTS[:3]) if rng.random() < 0.8 else rng.choice(VARIANTS[3:])
+    for _ in range(n_chain):
+        c = chain_case(rng)
+        c["variant"] = rng.choice(["exact", "exact", "all_any"])
+        cases.append(c)
     # pass 1: small budgets + a large one, to learn n
     SMALL = list(range(0, 9))
     r1 = fw.run_rust(harness, [rust_cmd(c, SMALL + [1000]) for c in cases])
@@ -235,9 +293,10 @@ def run(rep, tier, seed):
 
     stats = {"skipped_not_valid": 0, "skipped_entities_error": 0, "allow": 0, "deny": 0, "variants": {}, "streams": {},
              "iterations_needed": {}, "insufficient_runs": 0, "decided_runs": 0, "dangling_loads": 0, "max_n": 0,
-             "duplicate_errors": 0, "decided_at_budget0": 0, "model_compared": 0, "model_skipped": 0}
+             "duplicate_errors": 0, "decided_at_budget0": 0, "model_compared": 0, "model_skipped": 0, "chain_model_compared": 0}
     distinct = set()
     mcmds, mmeta = [], []
+    ccmds, cmeta = [], []
     dup_reported = False
     samples = []
     for i, (c, rr) in enumerate(zip(cases, r1)):
@@ -263,7 +322,7 @@ def run(rep, tier, seed):
         for r in runs:
             o = oc(r["outcome"])
             b = r["budget"]
-            if o[0] == "err_duplicate" and c["variant"].endswith("_any"):
+            if o[0] == "err_duplicate":
                 stats["duplicate_errors"] += 1
                 if not dup_reported:
                     dup_reported = True
@@ -307,6 +366,11 @@ def run(rep, tier, seed):
         if len(samples) < 2 and first_ok is not None and first_ok >= 3:
             samples.append({"case": rust_cmd(c, SMALL), "result": {"ordinary": ordinary, "n": n, "first_budget_with_decision": first_ok}})
         # correspondence: pass-1 runs only (budgets 0..8, 1000)
+        if c["stream"] == "chain":
+            for r in rr["runs"]:
+                ccmds.append([Sym("batched_chain"), r["budget"], Sym("all" if c["variant"] == "all_any" else "exact"),
+                              c["mpols"], c["ments"]])
+                cmeta.append((i, r))
         mc = model_cmds(rr)
         if mc is None:
             stats["model_skipped"] += 1
@@ -325,11 +389,28 @@ def run(rep, tier, seed):
         if ok and ro[0] in ("ok", "insufficient") and len(mcalls) != rcalls_n:
             ok = False
         if not ok and ro[0] in ("ok", "insufficient", "err_duplicate"):
-            rep.violation({"property": PROP, "kind": "model loop (Batched.v batched_full / t_batched) and is_authorized_batched disagree; "
+            capped.violation({"property": PROP, "kind": "model loop (Batched.v batched_full / t_batched) and is_authorized_batched disagree; "
                            "transfer of c15_monotone / c15_insufficient is lost for this input",
                            "budget": r["budget"], "rust": r, "model": repr(m), "case": rust_cmd(cases[i], [r["budget"]])},
                           no_failing_input=True)
-    nx = fw.coq_crosscheck(mcmds[:40], mres[:40], PROP)
+    # stream C: the model computes everything (requested ids per iteration, deciding budget) by itself
+    cres = fw.run_model(driver, ccmds)
+    stats["chain_model_compared"] = len(ccmds)
+    for (i, r), m, mcmd in zip(cmeta, cres, ccmds):
+        mo, mcalls = canon_model(m, r["budget"])
+        ro = oc(r["outcome"])
+        try:
+            rcalls = [sorted(int(u.split('"')[1][1:]) for u in call["requested"]) for call in r["calls"]]
+        except Exception:
+            rcalls = [["?"] + call["requested"] for call in r["calls"]]
+        if ro[0] not in ("ok", "insufficient"):
+            continue        # an error outcome is reported by the oracle above
+        if mo != ro or mcalls != rcalls:
+            capped.violation({"property": PROP, "kind": "chain model (Batched.v c_batched_full: loop + chain evaluator, no facts from the implementation) "
+                           "and is_authorized_batched disagree on the outcome or on the ids requested per iteration",
+                           "budget": r["budget"], "rust": r, "model": repr(m), "model_cmd": repr(mcmd),
+                           "case": rust_cmd(cases[i], [r["budget"]])})
+    nx = fw.coq_crosscheck(mcmds[:25] + ccmds[:25], mres[:25] + cres[:25], PROP)
     for f in failures:
         rep.violation({"property": PROP, "kind": "proof obligation no longer checks", "detail": f}, no_failing_input=True)
     evaluated = sum(stats["streams"].values())
@@ -339,9 +420,9 @@ def run(rep, tier, seed):
         "trusted_base": fw.TRUSTED_BASE + ["C15: the partial evaluator is abstract; Section hypotheses of proofs/BatchedProofs.v (reinterp_stable, partial_needs_unloaded, lits_in_universe, residual soundness) are trusted, see notes/C15.md"],
         "theorems": details,
         "evaluations": stats["decided_runs"] + stats["insufficient_runs"], "distinct_nontrivial": len(distinct),
-        "rule": "%d tgen cases (well-typed policies, conformant stores with absent entities) + %d Node-schema cases (attribute chains <= 5 hops, in-sets, tags, context entity, action group, dangling references, missing principal/resource); 5 loader variants; budgets 0..8, 1000, n, n+1; evaluated = cases whose policies validate (strict) and whose request validates; non-trivial = first deciding budget >= 2" % (n_tgen, n_node),
-        "cases_evaluated": evaluated, "traces_validated_against_impl": stats["model_compared"],
-        "vm_compute_crosscheck_cases": nx, "histograms": stats, "samples": samples or [{"case": rust_cmd(cases[-1], SMALL)}],
+        "rule": "%d tgen cases (well-typed policies, conformant stores with absent entities) + %d chain cases modelled without facts (stream C) + %d Node-schema cases (attribute chains <= 5 hops, in-sets, tags, context entity, action group, dangling references, missing principal/resource); 6 loader variants; budgets 0..8, 1000, n, n+1; evaluated = cases whose policies validate (strict) and whose request validates; non-trivial = first deciding budget >= 2" % (n_tgen, n_chain, n_node),
+        "cases_evaluated": evaluated, "traces_validated_against_impl": stats["model_compared"] + stats["chain_model_compared"],
+        "vm_compute_crosscheck_cases": nx, "histograms": stats, "correspondence_differences": capped.n, "samples": samples or [{"case": rust_cmd(cases[-1], SMALL)}],
     }
     rep.assumptions = ["policies validate in strict mode and the request validates against the schema (others are skipped and counted)",
                        "store parsed with the schema (conformant, action entities included)",
